@@ -117,6 +117,18 @@ def cases(ctx):
     if ctx.shard == 0:
         for flav in ("vanilla", "nv"):
             yield {"kind": "threaded-decode", "flavour": flav, "threads": 4, "rounds": ctx.n(60, 4000), "seed": rng.randrange(2**31)}
+    # programs at and just past the sizes at which a block-wise or buffered decoder changes blocks (commands per 2^10 / 2^12 / 2^16 /
+    # 2^18 bytes, 2^10 / 2^16 / 2^17 commands): built from a short random pattern repeated, judged by plain encode -> decode
+    longs = [146, 147, 585, 586, 1023, 1024, 1025, 4095, 4096, 4097, 9361, 9362, 9363, 18724, 37448, 37449, 65535, 65536, 65537]
+    if not ctx.quick:
+        longs += [2 * 37449, 3 * 9362, 2**17 - 1, 2**17, 2**17 + 1, 149796, 149797, 2**18, 2**18 + 1]
+    for i_long, ln in enumerate(longs):
+        if ctx.mine(i_long):
+            flav = rng.choice(["vanilla", "nv", "reids"])
+            names = sorted(isa.TABLE[flav])
+            pat = [[m, codec.rand_values(rng, isa.TABLE[flav][m][1])] for m in (rng.choice(names) for _ in range(rng.choice([1, 3, 7, 13])))]
+            yield {"kind": "long", "flavour": flav, "version": [rng.randrange(256), rng.randrange(256)], "app_id": rng.randrange(65536),
+                   "pattern": pat, "length": ln}
     nseq = ctx.n(300, 400000)
     for i_seq in range(nseq):
         flav = rng.choice(["vanilla", "nv", "reids"])
@@ -144,6 +156,45 @@ def cases(ctx):
             share = True
         yield {"kind": "single", "flavour": flav, "version": [rng.randrange(256), rng.randrange(256)],
                "app_id": rng.choice([0, 1, 255, 256, 65535, rng.randrange(65536)]), "instrs": ins, "share": share}
+
+
+def _long(ctx, case):
+    from netqasm.lang.parsing import deserialize
+    from netqasm.lang.subroutine import Subroutine
+    flav, ln, pat = case["flavour"], case["length"], case["pattern"]
+    fobj = codec.flavour_obj(flav)
+    instrs = [pat[i % len(pat)] for i in range(ln)]
+    # (the last instruction differs from the pattern, so that a program decoded twice over or cut short cannot look right)
+    instrs[-1] = ["set", [["R", 5], ln % 2**31]]
+    objs = [codec.mk_instr(fobj, flav, m, v) for m, v in pat]
+    last = codec.mk_instr(fobj, flav, *instrs[-1])
+    sub = Subroutine(netqasm_version=tuple(case["version"]), app_id=case["app_id"],
+                     instructions=[objs[i % len(pat)] for i in range(ln - 1)] + [last])
+    raw = bytes(sub)
+    ctx.count("long_programs")
+    ctx.count("instructions_in_long_programs", ln)
+    what = None
+    if len(raw) != isa.HEADER_BYTES + isa.COMMAND_BYTES * ln:
+        what = f"encoded length {len(raw)} for {ln} instructions"
+    else:
+        try:
+            dec = deserialize(raw, flavour=fobj)
+        except Exception as e:
+            what = f"decoding the encoded program raised {type(e).__name__}: {str(e)[:120]}"
+        else:
+            if len(dec.instructions) != ln:
+                what = f"{ln} instructions decoded as {len(dec.instructions)}"
+            elif tuple(dec.netqasm_version) != tuple(case["version"]) or dec.app_id != case["app_id"]:
+                what = f"header decoded as version {tuple(dec.netqasm_version)} app {dec.app_id}"
+            else:
+                want = [[m, v] for m, v in instrs]
+                for i, b in enumerate(dec.instructions):
+                    if codec.describe_instr(b) != want[i]:
+                        what = f"instr {i} of {ln}: {want[i]} decoded as {codec.describe_instr(b)}"
+                        break
+    if what:
+        ctx.fail(case, f"{flav}: program of {ln} instructions: {what}")
+    ctx.case(case, True)
 
 
 def _roundtrip(ctx, case, flav, version, app_id, instrs, fobj=None, mutate=None):
@@ -319,6 +370,8 @@ def run_case(ctx, case):
     flav = case["flavour"]
     if kind == "threaded-decode":
         return _threaded_decode(ctx, case)
+    if kind == "long":
+        return _long(ctx, case)
     if kind == "tables":
         _state["table_violations"] = {}
         fobj = codec.fresh_flavour(flav)
